@@ -53,6 +53,9 @@ pub enum Finish {
     Panic,
     /// `into_writer()` dropped without writing anything: the application chose to send nothing
     WriterUnused,
+    /// `into_writer()`, then the handler panics before writing anything: the unwritten writer is
+    /// dropped while its thread unwinds (real-thread engines only)
+    WriterPanic,
 }
 
 #[derive(Clone, Debug, PartialEq, Eq, Serialize, Deserialize)]
@@ -319,7 +322,7 @@ pub fn expect(case: &ConvCase) -> Expected {
                         ExpMsg { req_idx: i, status: 101, head: false, rid: None, body: Some(vec![]), raw_after: Some(upgrade_reply(rq.id, n)), interim_before: interim }
                     }
                     Finish::Drop | Finish::Panic => ExpMsg { req_idx: i, status: 500, head: rq.is_head(), rid: None, body: Some(vec![]), raw_after: None, interim_before: interim },
-                    Finish::WriterUnused => {
+                    Finish::WriterUnused | Finish::WriterPanic => {
                         // nothing is sent for this request
                         let ends = m.ends_connection;
                         models.push(m);
